@@ -25,7 +25,7 @@ LEVEL_NOTE = ("Trusted: the reference model (DESIGN.md Appendix B), SimRenderabl
               "not under test here).")
 TIERS = {
     "quick": {"runs": 40000, "max_ops": 40},
-    "thorough": {"runs": 1500000, "max_ops": 40, "wall_cap": 1200},
+    "thorough": {"runs": 1500000, "max_ops": 80, "wall_cap": 1200},
 }
 RULE = ("history = seeded constructor arguments (frame count 2-6 or INDEFINITE stream of 0-8 "
         "frames, loops, cache, padding kind, static or DYNAMIC duration, __init__ or "
